@@ -279,7 +279,7 @@ type fxH struct {
 
 func (l *fxLayout) config(mt, arch string, created time.Time, diffs []string, hist []fxH) fxDesc {
 	c := fxConfig{Created: created.Format(time.RFC3339), Architecture: arch, OS: "linux",
-		Config: fxCfgCfg{Env: []string{"PATH=/bin"}, Cmd: []string{"/bin/sh"}, Labels: map[string]string{"version": "1"}},
+		Config: fxCfgCfg{Env: []string{"PATH=/bin"}, Cmd: []string{"/bin/sh"}, Labels: map[string]string{"version": "1", "created": "2019-06-01T00:00:00Z"}},
 		RootFS: fxRootFS{Type: "layers", DiffIDs: diffs}}
 	if arch == "unknown" {
 		c.OS = "unknown"
